@@ -531,11 +531,12 @@ func runC08(r *Run) {
 			return
 		}
 		// time: only gross super-linear growth, confirmed by a second measurement of both sizes
-		// (documents beyond a megabyte are left to the allocation oracle: their decode is bound by memory
-		// bandwidth and by what the other shards of the run are doing, and measured 15-25x for 4x at 3-4 MB
-		// on every CTE family in the thorough tier while the same decodes are linear in a process of their own)
+		// (decodes that allocate hundreds of megabytes are left to the allocation oracle: they are bound by
+		// memory bandwidth and by what the other shards of the run are doing, and measured 15-25x for 4x on
+		// every CTE family at 1.6-4 MB documents / 700-850 MB allocated in the thorough tier, while the same
+		// decodes are linear in a process of their own)
 		steep := func(a, b time.Duration) bool {
-			return len(d4) <= 1<<20 && a >= 250*time.Millisecond && b > 12*a
+			return a4 <= 320<<20 && a >= 250*time.Millisecond && b > 12*a
 		}
 		if steep(t1, t4) {
 			// confirm without the collector: its work grows with everything the process still holds from
